@@ -23,6 +23,7 @@ func init() {
 			{Name: "$host from the target", File: "route/target.go", Old: "strings.Replace(t.RedirectURL.Host, \"$host\", requestURL.Host, 1)", New: "strings.Replace(t.RedirectURL.Host, \"$host\", t.URL.Host, 1)", Expect: "C13.P1"},
 			{Name: "query always copied", File: "route/target.go", Old: "if t.RedirectURL.RawQuery == \"\" && requestURL.RawQuery != \"\" {", New: "if requestURL.RawQuery != \"\" {", Expect: "C13.P1"},
 			{Name: "skipped redirect kept", File: "route/table.go", Old: "\t\t\t\t\ttarget = nil\n\t\t\t\t\tcontinue", New: "\t\t\t\t\tcontinue", Expect: "C13.L1"},
+			{Name: "self-redirect test ignores the port", File: "route/table.go", Old: "target.RedirectURL.Host == req.Host &&", New: "target.RedirectURL.Hostname() == req.URL.Hostname() &&", Expect: "C13.L2"},
 			{Name: "benign: return built URL through a local", File: "route/table.go", Old: "redirect.BuildRedirectURL(req.URL)", New: "ru := req.URL\n\t\t\t\tredirect.BuildRedirectURL(ru)", Expect: ""},
 		},
 	})
@@ -38,6 +39,7 @@ func runC13(c *Ctx) {
 	runC13C1(c)
 	runC13P1(c)
 	runC13L1(c)
+	runC13L2(c)
 }
 
 func runC13G1(c *Ctx) {
